@@ -62,7 +62,7 @@ def hex64 (v : UInt64) : String :=
 
 def showBytes (b : Bytes) : String :=
   if b.isEmpty then "."
-  else if b.length ≤ 48 then hex b
+  else if b.length ≤ 200 then hex b
   else s!"{hex (b.take 16)}#{b.length}:{hex64 (fnv64 b)}"
 
 def showMsg (m : List Bytes) : String :=
